@@ -388,6 +388,10 @@ def case_tol(case, coq=False):
     """1e-9 relative; for facts in a small unit the absolute part of `|a-b| <= tol*(1+|b|)` is scaled to the (largest)
     unit of the result so that the comparison stays meaningful"""
     u = case.get("funit")
+    if abs(case.get("offset") or 0) >= 2 ** 38:
+        # facts around 2^40: the two-pass code rounds the per-cell mean to ulp(2^40)/2 = 2^-13, which leaves rounding noise of up to
+        # ~1e-8 in a covariance whose textbook value is exactly 0 (no relative slack there): false alarm under seed 1 (DESIGN 0.4)
+        return Fraction(1, 10 ** 6)
     if not u:
         return Fraction(1, 10 ** 9)
     if case["kind"] == "corrcoef":
